@@ -37,6 +37,10 @@ def main():
         from selftest import determinism
 
         sys.exit(determinism(base_seed, jobs))
+    if args.prop == "selftest-prims":
+        from selftest import prims_fidelity
+
+        sys.exit(prims_fidelity(base_seed))
     spec = registry.CHECKS[args.prop]
     if args.replay:
         sys.exit(registry.replay(args.prop, spec, args.replay))
